@@ -369,6 +369,17 @@ def identity_on_valid_banks(ctx, chk, facts, prog):
             found = 0
             bad = None
             for r in ip.run(bm.RD, [S(0, 'areas'), bm.ADDR], st):
+                calls0 = [e for e in r.state.events if e[0] == 'call' and e[1] == getters[(ty, getter)]]
+                served = (r.status == 'ok' and r.ret is not None and r.ret[0] == 's' and r.ret[3] and r.ret[3][0] == 'elem'
+                          and bm.buffer_of(r.ret[3][1]) == buf)
+                if r.status == 'ok' and calls0 and not served and \
+                        any(calls0[-1][3] in _syms_of(d[0]) for d in r.state.decisions):
+                    # reduced, not rejected: whether the window is backed by the buffer must not depend on the bank number
+                    bad = bad or ('with %d banks of %s, some controller bank numbers are not served from the buffer at all '
+                                  '(the access returns %s on a path whose condition tests the bank number): the bank is '
+                                  'rejected instead of reduced to the cartridge\'s size' % (count, buf, fmt(r.ret)[:40]))
+                    found += 1
+                    continue
                 if r.status != 'ok' or r.ret is None or r.ret[0] != 's' or not r.ret[3] or r.ret[3][0] != 'elem':
                     continue
                 if bm.buffer_of(r.ret[3][1]) != buf:
